@@ -14,6 +14,8 @@ Definition kind_eqb (a b : kind) : bool :=
 Definition release_on_remove (k : kind) : bool :=
   existsb (λ '(k', s, _), kind_eqb k k' && match s with SDel => false | _ => true end) release_sites.
 Definition all_id_stores_from_get_id : bool := forallb snd id_stores.
+(** Each class releases and acquires only in the manager of its own kind. *)
+Definition class_kind_consistent : bool := forallb snd class_kind_sites.
 
 (** The allocator scan always terminates (pigeonhole on the used set). *)
 Theorem c08_get_id_total : ∀ d s, is_Some (get_id d s).
@@ -24,8 +26,11 @@ Theorem c08_get_id_fresh : ∀ d s i s', Inv s → get_id d s = Some (i, s') →
   0 < i ∧ i ∉ used s ∧ used s' = {[i]} ∪ used s ∧ Inv s'.
 Proof. exact get_id_fresh. Qed.
 
-Theorem c08_discard_keeps_invariant : ∀ e s, 0 < e → Inv s → Inv (discard e s).
+Theorem c08_discard_keeps_invariant : ∀ e s, Inv s → Inv (discard e s).
 Proof. exact discard_inv. Qed.
+(** ... which needs the positivity guard on lowering the hint: *)
+Theorem c08_discard_unguarded_refuted : fst <$> get_id (-1) (discard_g false (-1) init) = Some (-1).
+Proof. exact discard_unguarded_refuted. Qed.
 
 (** Lifecycle: for every kind whose only release sites are destructors, after EVERY history of creation with
     arbitrary desired IDs, removal from the map, re-adding and garbage collection, the objects that still
